@@ -10,7 +10,8 @@ RULE = ("random histories of up to 30 ops on the real RollingFileAppender: trigg
         "UTF-8 filler, 0-3 encoder chunks split at arbitrary bytes, sizes 0..12 and in ~8% of the cases around the "
         "1 KiB buffer: 1023/1024/1025/2100), restart (append mode; truncate mode in ~10% of the cases, then only the "
         "model comparison applies), burst of 2-4 threads x 1-4 tagged records; in an eighth of the histories a third of "
-        "the appends carry a NESTED record: the encoder or the roller of the call appends it to a second rolling "
+        "the appends carry a NESTED record (and a seventh of the appends under the real time trigger meet a FAILING roller: "
+        "the boundary is consumed, the record is not written, the next record is an ordinary one): the encoder or the roller of the call appends it to a second rolling "
         "appender (size trigger 10 bytes, window of 2) from inside the call - that appender must store and rotate as "
         "always (stream and size oracles). After EVERY op the whole directory "
         "(names -> gunzipped bytes) and every policy consultation is compared with the model; independently the files "
@@ -249,6 +250,8 @@ def cases(rng, tier):
                 else:
                     sz = rng.choice([0, 1, 2, 3, 4, 5, 6, 8, 12, rng.below(13)])
                 op = rc.op_append(rng, "%d" % rid, sz)
+                if trig[0] == 3 and rng.chance(1, 7):
+                    op = [7, op[1]]        # the roller is set to fail for this call (time trigger: pre-processing)
                 if nested and trig[0] != 3 and rng.chance(1, 3):
                     # the encoder / the roller of this call appends a record to a second rolling appender
                     op = [10, op[1], rc.rec_bytes(rng, "s%d" % rid, rng.range(4, 9)), rng.choice([1, 1, 2])]
